@@ -293,12 +293,6 @@ package callbacks
 //@   assert admitted-by-select-omit-and-permission: (has(selectColumns, field.DBName) && selectColumns[field.DBName]) || (!has(selectColumns, field.DBName) && !restricted) [C10]
 //@   assert not-a-key-or-create-time-column: !field.PrimaryKey && field.AutoCreateTime == 0 [C10,C16]
 
-//@ # ---------- C13: a belongs-to record shared by several parents is saved (and hooked) once ----------
-//@ site shared-belongs-to-saved-once
-//@   match call callbacks.saveAssociations
-//@   in callbacks.SaveBeforeAssociations$1
-//@   min-sites 2
-//@   assert deduplicated-records: !defined(rv) ==> arg2 == distinctElems [C13]
 //@ # ---------- C16: the upsert of all columns treats `default:NULL` in any letter case as no default ----------
 //@ site update-all-null-default-any-case
 //@   match call strings.EqualFold
